@@ -5,6 +5,7 @@ mod gen;
 mod model;
 mod p_kmer;
 mod p_min;
+mod p_file;
 mod p_io;
 mod p_tables;
 mod p_vec;
@@ -183,6 +184,8 @@ fn main() {
             p_vec::run_c12_one(eff_tier, &mut rng, &model, &mut rep, corpus);
             rep
         }
+        "C05" => p_file::run_files("C05", eff_tier, seed, &model, corpus_lines, &work),
+        "C14" => p_file::run_files("C14", eff_tier, seed, &model, corpus_lines, &work),
         "C06" => p_io::run_c06(eff_tier, seed, &model, corpus_lines, &work),
         "C09" => p_min::run_c09(eff_tier, seed, &model, corpus),
         "C18" => p_min::run_c18(eff_tier, seed, &model, corpus),
